@@ -9,12 +9,16 @@ VecSlicer   a Slicer that also knows what a `Vec` *holds* after it was grown in 
             Only growth that *certainly happened before every other use* of the vector is modelled (the growing call is
             outside any loop and dominates every other read of the local, so the flow-insensitive value is exact); any
             other growth pattern leaves the value as lib/value.py gives it.
+order_free_transfer  a hash iteration that needs no triage: a complete loop that only inserts each entry under its own key
+            into a keyed container (copy-on-write overlay map written back into an Env / BTreeMap)
+lift_to / triage_scope  a triage names a container of a public function; it covers the private bodies / phases only that
+            function can reach, with the iterated container re-expressed at the call sites
 exec_d_rows the file WRITE effects of the exec.d writer, each classified as <root>/../exec.d/<key of an element of
             the triaged container> or not — independent of where the `fs::copy` call lives (inline, closure handed
             to a combinator, private helper).
 """
 from .lib.value import Slicer, walk, vstr
-from .lib.mir import op_place
+from .lib.mir import op_place, op_const, _rvalue_places
 from .lib import iters
 from .lib.paths import strip
 
@@ -424,12 +428,14 @@ def _iterates(v, is_cont, depth=0):
     return False
 
 
-def hash_iteration_shape(prog, sl, E, top, is_cont):
+def hash_iteration_shape(prog, sl, E, top, is_cont, scope=None):
     """(positional, undecided): calls in `top` and its closures that consume an iterator over the triaged container by
     *position* (a prefix / suffix / every n-th / the first element: which elements those are depends on the hash
-    order), and calls whose way of consuming it is not known to visit every element independently of the order"""
+    order), and calls whose way of consuming it is not known to visit every element independently of the order.
+    `scope` = [(function, container predicate in that function's terms)] when the code of `top` is spread over private
+    helpers only it can reach (triage_scope)"""
     positional, undecided = [], []
-    for g in [top] + prog.closures_of(top):
+    for g, is_cont in (scope if scope is not None else [(g, is_cont) for g in [top] + prog.closures_of(top)]):
         loop_next = {(lp.next_call.bb) for lp in E.loops(g) if lp.next_call is not None}
         for c in g.calls:
             if c.indirect or not c.args:
@@ -601,3 +607,264 @@ def sink_owner(prog, f, owners, _seen=None):
     if n and len(found) == 1 and None not in found:
         return next(iter(found))
     return None
+
+
+# --- R2: a triage is about a container of a public function, wherever the loop over it is written ---------------------
+def lift_to(prog, sl, g, v, owner_path, depth=0):
+    """value v (in the terms of g) re-expressed in the terms of the function `owner_path`, at every call site through
+    which g is reached (parameters replaced by the call-site arguments, through further private functions) ->
+    [values] | None when a use of g cannot be substituted (handed over as a function item, called from a closure,
+    recursion)"""
+    from .lib.value import subst
+    if g.path == owner_path:
+        return [v]
+    if depth > 4 or g.kind == 'Closure':
+        return None
+    if not any(x[0] == 'param' and x[1] == g.path for x in walk(v)):
+        return [v]
+    css = [cs for cs in prog.callers().get(g.path, []) if cs.fn.path != g.path]
+    if not css:
+        return None
+    out = []
+    for cs in css:
+        if cs.indirect or g.path not in cs.names():
+            return None
+        m = {(g.path, i): sl.operand(cs.fn, a) for i, a in enumerate(cs.args)}
+        r = lift_to(prog, sl, cs.fn, subst(v, m, sl), owner_path, depth + 1)
+        if r is None:
+            return None
+        out.extend(r)
+    return out
+
+
+def triage_scope(prog, top):
+    """the functions whose code is the code of `top`: top, the private workspace functions that only top can reach
+    (sink_owner: a public function split into a thin wrapper and non-generic bodies / phases) and their closures"""
+    fns = [top]
+    for g in prog.fns.values():
+        if g.path != top.path and g.crate in CRATES and g.kind in ('Fn', 'AssocFn') and not g.derived \
+                and sink_owner(prog, g, {top.path: 1}) == top.path:
+            fns.append(g)
+    out = []
+    for g in fns:
+        out.append(g)
+        out.extend(prog.closures_of(g))
+    return out
+
+# --- R2: a hash iteration whose order cannot be observed afterwards: a keyed transfer ---------------------------------
+DISTINCT_ELEMS = re.compile(r'\bhash_map::(Iter|IterMut|IntoIter|Drain|Keys|IntoKeys)\b|\bhash_set::(Iter|IntoIter|Drain)\b')
+HASH_ITER_SELF = re.compile(r'^<std::collections::hash_(map|set)::\w+<')
+KEYS_ONLY = re.compile(r'\bhash_map::(Keys|IntoKeys)\b|\bhash_set::')
+KEYED_INSERT = re.compile(r'^std::collections::(hash_map::|btree_map::|hash_set::|btree_set::)?(HashMap|BTreeMap|HashSet|BTreeSet)::<.*>::insert$')
+INJECTIVE = {'std::convert::Into::into', 'std::convert::From::from', 'std::clone::Clone::clone', 'std::borrow::ToOwned::to_owned',
+             'std::convert::AsRef::as_ref', 'std::ops::Deref::deref', 'std::borrow::Borrow::borrow', 'std::ffi::OsStr::to_os_string',
+             'std::ffi::OsString::as_os_str', 'std::path::Path::to_path_buf', 'std::string::String::as_str', 'std::string::ToString::to_string',
+             'std::ffi::OsStr::to_owned', 'std::str::<impl str>::to_owned', 'std::ffi::OsString::from'}
+
+
+def _peel_injective(prog, v):
+    """v with conversions that map different keys to different keys (clone / into / to_owned / borrows) peeled"""
+    for _ in range(8):
+        v = strip(v)
+        if v[0] == 'call' and len(v[2]) == 1 and len(v) == 4 and v[3] and v[3][0] in prog.fns:
+            c = prog.fns[v[3][0]].call_at(v[3][1])
+            if c is not None and not c.indirect and (c.names() & INJECTIVE):
+                v = v[2][0]
+                continue
+        return v
+    return v
+
+
+def _keyed_insert(prog, sl, f, c):
+    """(index of the key argument, index of the receiver) if the call inserts its key argument into a keyed container
+    (HashMap / BTreeMap / HashSet / BTreeSet::insert, or a workspace function that does nothing but that with its
+    parameters — Env::insert), else None"""
+    if c.indirect or len(c.args) < 2:
+        return None
+    if any(KEYED_INSERT.match(n) for n in c.names()):
+        return 1, 0
+    gs = prog.callee_fns(c)
+    if len(gs) != 1 or gs[0].crate not in CRATES or gs[0].kind == 'Closure':
+        return None
+    g = gs[0]
+    inner = [ic for ic in g.calls if not ic.indirect and any(KEYED_INSERT.match(n) for n in ic.names())]
+    if len(inner) != 1 or g.in_loop(inner[0].bb):
+        return None
+    ic = inner[0]
+    for oc in g.calls:
+        if oc is not ic and (oc.indirect or not (oc.names() & (INJECTIVE | {'std::mem::drop'}))):
+            return None
+    recv = strip(sl.operand(g, ic.args[0]))
+    while recv[0] == 'field':
+        recv = strip(recv[1])
+    key = _peel_injective(prog, sl.operand(g, ic.args[1]))
+    if recv[0] == 'param' and recv[1] == g.path and key[0] == 'param' and key[1] == g.path and recv[2] != key[2]:
+        return key[2], recv[2]
+    return None
+
+
+def _iter_chain(f, lp):
+    """the locals the iterator of the loop lives in: the argument of `next`, back through re-borrows and moves to the
+    local the iterator was created into"""
+    pl = op_place(lp.next_call.args[0])
+    chain = []
+    x = pl[0] if pl else None
+    defs = f.defs()
+    while x is not None and x not in chain and len(chain) < 8:
+        chain.append(x)
+        ds = defs.get(x, [])
+        if len(ds) != 1 or ds[0][0] != 'stmt':
+            break
+        rv = ds[0][3]
+        if rv['r'] == 'ref':
+            x = rv['p'][0]
+        elif rv['r'] == 'use' and op_place(rv['o']):
+            x = op_place(rv['o'])[0]
+        else:
+            break
+    return chain
+
+
+def order_free_transfer(prog, sl, E, f, cs, implicit=()):
+    """Is every hash iteration of f (the iteration calls cs) a *keyed transfer*: a complete `for` loop over the distinct
+    keys / entries of a hash map or set whose body does nothing but insert something computed from the element under
+    the element's own key into a keyed container (HashMap / BTreeMap / set insert, Env::insert)?  Insertions under
+    distinct keys commute, so the container that results — the only thing that leaves the loop — is the same for every
+    iteration order.  Stated on the loop, not on a spelling:
+      * the iterator yields each key once (not `values()`), is consumed by that loop only and completely (no exit other
+        than exhaustion),
+      * nothing is carried from one iteration to the next: every local written in the body lives in the body (or only
+        ever holds constants: drop flags), nothing outside the body is borrowed mutably except the iterator and the
+        insert target, the insert target is not read in the body,
+      * every other call in the body takes no `&mut` argument and has no effect known to lib/effects.py,
+      * the inserted key is the element's key up to conversions that keep different keys different.
+    -> (ok, why not)"""
+    if implicit:
+        return False, 'the container is handed as a whole to order-observing code'
+    loops = {lp.next_call.bb: lp for lp in E.loops(f) if lp.next_call is not None}
+    mine = []
+    for c in cs:
+        if c.decl == IT + 'next':
+            lp = loops.get(c.bb)
+            if lp is None:
+                return False, 'a single element is taken (%s)' % c.where()
+            # the loop draws from the hash iterator itself (an adapter in between could swap / merge what is the key)
+            if not (HASH_ITER_SELF.match(c.name or '') and DISTINCT_ELEMS.search(c.name or '')):
+                return False, 'the loop is not directly over the distinct keys / entries of the container (%s)' % (c.name or '?')
+            mine.append(lp)
+    if not mine:
+        return False, 'no loop consumes the iteration'
+    for c in cs:
+        if c.decl == IT + 'next':
+            continue
+        # a source call (`into_iter`, `iter`, `drain`, `keys`): its result is the iterator of one of those loops only
+        if f.in_loop(c.bb) or not c.dest or len(c.dest) != 1:
+            return False, 'the iterator is created in a loop / into a place (%s)' % c.where()
+        feeds = [lp for lp in mine if c.dest[0] in _iter_chain(f, lp)]
+        if len(feeds) != 1:
+            return False, 'the iterator created at %s is not consumed by exactly one loop' % c.where()
+        chain = _iter_chain(f, feeds[0])
+        for x in chain:
+            for u in f.uses_of(x):
+                if u[1] == 'drop' or (u[1] == 'arg' and u[0] == feeds[0].header):
+                    continue
+                if u[1] != 'stmt' or f.blocks[u[0]]['s'][u[2]][1][0] not in chain:
+                    return False, 'the iterator created at %s is used by more than the loop' % c.where()
+    defs = f.defs()
+
+    def const_only(x):
+        ds = defs.get(x, []) + defs.get((x, 'partial'), [])
+        return bool(ds) and all(d[0] == 'stmt' and d[3]['r'] == 'use' and op_const(d[3]['o']) is not None for d in ds)
+
+    def lives_in(x, body):
+        ds = defs.get(x, []) + defs.get((x, 'partial'), [])
+        return x > f.argc and bool(ds) and all(d[1] in body for d in ds)
+
+    for lp in mine:
+        body = lp.body
+        ex = getattr(lp, 'exhaust', None)
+        if ex is None or [(b, t) for b in body for t in f.succs(b) if t not in body and (b, t) != ex and f.blocks[t]['t']['t'] != 'unreachable']:
+            return False, 'the loop at %s can be left before the iterator is exhausted' % lp.next_call.where()
+        keys_only = bool(KEYS_ONLY.search(lp.next_call.name or ''))
+        chain = _iter_chain(f, lp)
+        targets = set()
+        n_ins = 0
+        for c in f.calls:
+            if c.bb not in body or c is lp.next_call:
+                continue
+            ki = _keyed_insert(prog, sl, f, c)
+            if ki is not None:
+                k_i, r_i = ki
+                kv = _peel_injective(prog, sl.operand(f, c.args[k_i]))
+                proj = []
+                while kv[0] == 'field':
+                    proj.append(kv[2])
+                    kv = strip(kv[1])
+                if not (kv[0] == 'call' and kv[1] == IT + 'next' and len(kv) == 4 and kv[3] == (f.path, lp.next_call.bb)
+                        and tuple(proj) == (() if keys_only else ('0',))):
+                    return False, 'an insert at %s is not under the key of the element being handled' % c.where()
+                rp = op_place(c.args[r_i])
+                if not rp or len(rp) != 1:
+                    return False, 'the insert target at %s is not a plain borrow' % c.where()
+                rd = defs.get(rp[0], [])
+                if len(rd) != 1 or rd[0][0] != 'stmt' or rd[0][1] not in body or rd[0][3]['r'] != 'ref' or not rd[0][3].get('mut'):
+                    return False, 'the insert target at %s is not a plain borrow' % c.where()
+                tgt = tuple(rd[0][3]['p'])
+                if tgt[0] in chain:
+                    return False, 'the insert at %s goes into the iterated container' % c.where()
+                targets.add((tgt, rp[0]))
+                for i, a in enumerate(c.args):
+                    loc = _arg_local(f, a)
+                    if i != r_i and loc is not None and (loc.get('ty') or '').startswith('&mut'):
+                        return False, 'the insert at %s takes a further `&mut` argument' % c.where()
+                n_ins += 1
+                continue
+            if c.indirect:
+                return False, 'an indirect call in the loop body (%s)' % c.where()
+            from .lib.effects import vocab_lookup
+            if vocab_lookup(c) is not None:
+                return False, 'the loop body has an effect (%s at %s)' % (c.name, c.where())
+            for a in c.args:
+                loc = _arg_local(f, a) if op_place(a) else None
+                if op_place(a) and (loc is None or (loc.get('ty') or '').startswith(('&mut', '*mut'))):
+                    # a `&mut` argument is harmless when what it borrows lives in the body (a value built up per element)
+                    rd = defs.get(op_place(a)[0], []) if len(op_place(a)) == 1 else []
+                    if not (loc is not None and len(rd) == 1 and rd[0][0] == 'stmt' and rd[0][1] in body and rd[0][3]['r'] == 'ref'
+                            and '*' not in rd[0][3]['p'][1:] and lives_in(rd[0][3]['p'][0], body)):
+                        return False, 'a call in the loop body can change state outside it (%s at %s)' % (c.name, c.where())
+            for g in prog.callee_fns(c):
+                if g.crate in CRATES and E.expand(g, 'may'):
+                    return False, 'the loop body has effects (%s at %s)' % (c.name, c.where())
+        if not n_ins:
+            return False, 'the loop at %s does not insert into a keyed container' % lp.next_call.where()
+        tgt_locals = {t[0][0] for t in targets}
+        tgt_refs = {t[1] for t in targets}
+        for b in body:
+            blk = f.blocks[b]
+            for st in blk['s']:
+                if st[0] == 'setdiscr':
+                    return False, 'the loop body writes a discriminant in place'
+                if st[0] != '=':
+                    continue
+                pl, rv = st[1], st[2]
+                if '*' in pl[1:] or not (lives_in(pl[0], body) or const_only(pl[0])):
+                    return False, 'the loop body writes %s, which lives outside the loop: state is carried between iterations' % (f.local_name(pl[0]) or '_%d' % pl[0])
+                for p, how in _rvalue_places(rv):
+                    outside = not lives_in(p[0], body)
+                    if how in ('refmut', 'rawptr') and outside and not (b == lp.header and p[0] in chain) \
+                            and not (len(pl) == 1 and pl[0] in tgt_refs and (tuple(p), pl[0]) in targets):
+                        return False, 'the loop body borrows %s mutably' % (f.local_name(p[0]) or '_%d' % p[0])
+                    if p[0] in tgt_locals and not (how == 'refmut' and len(pl) == 1 and pl[0] in tgt_refs):
+                        return False, 'the loop body reads the container it inserts into'
+            t = blk['t']
+            if t['t'] == 'call':
+                d = t['dest']
+                if '*' in d[1:] or not (lives_in(d[0], body) or const_only(d[0])):
+                    return False, 'the loop body stores a call result outside the loop'
+                for a in t.get('args', []):
+                    p = op_place(a)
+                    if p and p[0] in tgt_locals:
+                        return False, 'the loop body reads the container it inserts into'
+            elif t['t'] not in ('goto', 'switch', 'drop', 'unreachable', 'assert'):
+                return False, 'the loop body ends a block with %s' % t['t']
+    return True, ''
